@@ -98,7 +98,7 @@ func (t *tr) leanType(ty types.Type) string {
 	if k == kErr && t.f != nil && t.f.stateful {
 		return "Nat"
 	}
-	if k == kRec || k == kRecList || k == kSet {
+	if k == kRec || k == kRecList || k == kSet || k == kAbs {
 		return leanTypeStatic(ty)
 	}
 	if k == kBad {
@@ -226,6 +226,9 @@ type fctx struct {
 	abstract map[string]bool         // printed callee -> constructor of an abstract object
 	objRoots map[types.Object][]*types.Var // local struct objects (x := &T{…}): their fields of a supported type
 	applyops map[string]opq          // printed callee -> length-preserving keyed transformation written into the destination
+	closureLits map[types.Object]*ast.FuncLit // all local procedures of the definition (static)
+	closures map[types.Object]*ast.FuncLit // local procedures `f := func(…) {…}` (no results): calls are inlined
+	mutops   map[string]opq          // printed callee X.m -> function (object, args…) ↦ object: X.m(args) updates the abstract object X
 	inouts   map[string]opq          // printed callee -> function (window content, args…) ↦ Option (new window content = returned slice)
 	fillops  map[string]opq          // printed callee -> source of fresh bytes written into the destination
 	ctors    map[string]int          // printed callee -> index of the argument that represents the constructed abstract object
@@ -257,7 +260,7 @@ func newFctx(name string, opaque []opq) *fctx {
 	f := &fctx{name: name, env: map[types.Object]string{}, pvars: map[string]*types.Var{}, count: map[string]int{},
 		alias: map[types.Object][]types.Object{}, opaque: map[string]opq{}, errVars: map[types.Object]bool{},
 		blockops: map[string]opq{}, abstract: map[string]bool{}, objRoots: map[types.Object][]*types.Var{},
-		applyops: map[string]opq{}, fillops: map[string]opq{}, inouts: map[string]opq{}, ctors: map[string]int{}, views: map[types.Object]*view{},
+		applyops: map[string]opq{}, fillops: map[string]opq{}, inouts: map[string]opq{}, mutops: map[string]opq{}, closures: map[types.Object]*ast.FuncLit{}, closureLits: map[types.Object]*ast.FuncLit{}, ctors: map[string]int{}, views: map[types.Object]*view{},
 		viewRoot: map[types.Object]types.Object{}, viewVars: map[types.Object][2]*types.Var{},
 		externRead: map[string]bool{}, externValue: map[string]bool{}, typeOverride: map[types.Object]string{}}
 	for _, o := range opaque {
@@ -422,6 +425,9 @@ func (t *tr) expr(e ast.Expr) string {
 		}
 		return t.binary(x.X, x.Op, x.Y, t.typeOf(x), x)
 	case *ast.UnaryExpr:
+		if cl, ok := x.X.(*ast.CompositeLit); ok && x.Op == token.AND {
+			return t.expr(cl) // &T{…}: the struct value (tuple of its supported fields)
+		}
 		k, w := t.kindOf(x)
 		switch {
 		case x.Op == token.NOT:
@@ -834,6 +840,11 @@ func (t *tr) call(c *ast.CallExpr) string {
 	}
 	if o, ok := t.f.opaque[t.src(c.Fun)]; ok {
 		var args []string
+		if sel, isSel := c.Fun.(*ast.SelectorExpr); isSel {
+			if kr, _ := t.kindOf(sel.X); kr == kAbs {
+				args = append(args, t.expr(sel.X)) // a method of an abstract object: the object is the first argument
+			}
+		}
 		for _, a := range c.Args {
 			args = append(args, t.expr(a))
 		}
@@ -1009,22 +1020,38 @@ func (t *tr) qualified(name string) string {
 	return t.ns + "." + t.u.sub + "." + leanName(name)
 }
 
-// procCall: a call of an emitted procedure (value = new content of the ONE slice argument it writes).  Returns the
-// destination window and the Lean call in which the destination argument is the current window content.
-func (t *tr) procCall(name string, sg *fsig, c *ast.CallExpr) (dst types.Object, cur, lo, hi, call string, whole, ok bool) {
-	if len(sg.outIdx) != 1 {
-		t.fail(c, "call of procedure %s, which writes %d slice parameters (exactly one is supported)", name, len(sg.outIdx))
+// procCall: a call of an emitted procedure (value = new content of the slice arguments it writes, a tuple if several).
+// Returns the destination windows and the Lean call in which each destination argument is the current window content.
+type procOut struct {
+	dst          types.Object
+	cur, lo, hi  string
+	whole        bool
+}
+
+func (t *tr) procCall(name string, sg *fsig, c *ast.CallExpr) (outs []procOut, call string, ok bool) {
+	if len(sg.outIdx) == 0 {
+		t.fail(c, "call of procedure %s, which writes no slice parameter", name)
 		return
 	}
-	di := sg.outIdx[0] - sg.nRecv
-	if di < 0 || di >= len(c.Args) {
-		t.fail(c, "procedure call arity of %s", name)
-		return
-	}
-	var okw bool
-	dst, cur, lo, hi, okw = t.window(c.Args[di])
-	if !okw {
-		return
+	isOut := map[int]int{}
+	for k, oi := range sg.outIdx {
+		di := oi - sg.nRecv
+		if di < 0 || di >= len(c.Args) {
+			t.fail(c, "procedure call arity of %s", name)
+			return
+		}
+		isOut[di] = k
+		dst, cur, lo, hi, okw := t.window(c.Args[di])
+		if !okw {
+			return
+		}
+		for _, o := range outs {
+			if o.dst == dst {
+				t.fail(c, "two written arguments of %s share the variable %s", name, dst.Name())
+				return
+			}
+		}
+		outs = append(outs, procOut{dst: dst, cur: cur, lo: lo, hi: hi})
 	}
 	var args []string
 	next := 0
@@ -1050,18 +1077,21 @@ func (t *tr) procCall(name string, sg *fsig, c *ast.CallExpr) (dst types.Object,
 			t.fail(c, "call arity of %s", name)
 			return
 		}
-		if next == di {
+		if k, isO := isOut[next]; isO {
 			a := c.Args[next]
+			o := &outs[k]
 			if se, isSl := a.(*ast.SliceExpr); t.viewOf(a) == nil && (!isSl || (se.Low == nil && se.High == nil && t.viewOf(se.X) == nil)) {
-				whole = true
-				args = append(args, cur)
+				o.whole = true
+				args = append(args, o.cur)
 			} else {
-				args = append(args, fmt.Sprintf("(GoSem.slice %s %s %s)", cur, lo, hi))
+				args = append(args, fmt.Sprintf("(GoSem.slice %s %s %s)", o.cur, o.lo, o.hi))
 			}
 		} else {
-			if rootIs(t, c.Args[next], dst) {
-				t.fail(c, "procedure argument %s overlaps the written argument", t.src(c.Args[next]))
-				return
+			for _, o := range outs {
+				if rootIs(t, c.Args[next], o.dst) {
+					t.fail(c, "procedure argument %s overlaps a written argument", t.src(c.Args[next]))
+					return
+				}
 			}
 			args = append(args, t.expr(c.Args[next]))
 		}
@@ -1074,6 +1104,45 @@ func (t *tr) procCall(name string, sg *fsig, c *ast.CallExpr) (dst types.Object,
 	call = "(" + t.qualified(name) + " " + strings.Join(args, " ") + ")"
 	ok = true
 	return
+}
+
+// storeProcOuts writes the components of a procedure's value `val` (a tuple when there are several outputs) back
+func (t *tr) storeProcOuts(outs []procOut, val string, n ast.Node) {
+	for k, o := range outs {
+		p := val
+		if len(outs) > 1 {
+			for j := 0; j < k; j++ {
+				p += ".2"
+			}
+			if k < len(outs)-1 {
+				p += ".1"
+			}
+		}
+		if o.whole {
+			t.store(o.dst, n, p)
+		} else {
+			t.store(o.dst, n, fmt.Sprintf("GoSem.copyInto %s %s %s %s", t.f.env[o.dst], o.lo, o.hi, p))
+		}
+	}
+}
+
+func poisonTuple(n int) string {
+	if n == 1 {
+		return "[]"
+	}
+	var ps []string
+	for i := 0; i < n; i++ {
+		ps = append(ps, "[]")
+	}
+	return "(" + strings.Join(ps, ", ") + ")"
+}
+
+func bytesTuple(n int) string {
+	var ps []string
+	for i := 0; i < n; i++ {
+		ps = append(ps, "Bytes")
+	}
+	return strings.Join(ps, " × ")
 }
 
 func calleeName(c *ast.CallExpr) string {
